@@ -340,3 +340,82 @@ pub fn dispatch_of(a: std::sync::Arc<FilterCollector>, how: u64) -> tracing_core
     }
 }
 pub const DISPATCH_HOW: [&str; 4] = ["C", "Arc<C>", "Box<C>", "Box<dyn Collect>"];
+
+// ---------------------------------------------------------------------------------------------
+// Zero-sized collectors in statics, handed to `Dispatch::from_static`.  Three distinct types,
+// one static each (zero-sized statics may share one address); each forwards to whatever
+// recording collector currently sits in its slot, or rejects everything when the slot is empty
+// (`from_static` registrations never expire, so a slot outlives the history that filled it).
+pub static ZSLOT: [Mutex<Option<std::sync::Arc<FilterCollector>>>; 3] = [Mutex::new(None), Mutex::new(None), Mutex::new(None)];
+
+pub struct Zst<const K: usize>;
+pub static Z0: Zst<0> = Zst;
+pub static Z1: Zst<1> = Zst;
+pub static Z2: Zst<2> = Zst;
+
+fn zslot(k: usize) -> Option<std::sync::Arc<FilterCollector>> {
+    ZSLOT[k].lock().unwrap_or_else(|e| e.into_inner()).clone()
+}
+
+impl<const K: usize> Collect for Zst<K> {
+    fn register_callsite(&self, m: &'static Metadata<'static>) -> Interest {
+        zslot(K).map(|c| c.register_callsite(m)).unwrap_or_else(Interest::never)
+    }
+    fn enabled(&self, m: &Metadata<'_>) -> bool {
+        zslot(K).map(|c| c.enabled(m)).unwrap_or(false)
+    }
+    fn max_level_hint(&self) -> Option<LevelFilter> {
+        match zslot(K) {
+            Some(c) => c.max_level_hint(),
+            None => Some(LevelFilter::OFF),
+        }
+    }
+    fn new_span(&self, a: &Attributes<'_>) -> Id {
+        zslot(K).map(|c| c.new_span(a)).unwrap_or_else(|| Id::from_u64(0xDEAD))
+    }
+    fn record(&self, s: &Id, r: &Record<'_>) {
+        if let Some(c) = zslot(K) {
+            c.record(s, r)
+        }
+    }
+    fn record_follows_from(&self, _: &Id, _: &Id) {}
+    fn event(&self, e: &Event<'_>) {
+        if let Some(c) = zslot(K) {
+            c.event(e)
+        }
+    }
+    fn enter(&self, s: &Id) {
+        if let Some(c) = zslot(K) {
+            c.enter(s)
+        }
+    }
+    fn exit(&self, s: &Id) {
+        if let Some(c) = zslot(K) {
+            c.exit(s)
+        }
+    }
+    fn clone_span(&self, s: &Id) -> Id {
+        zslot(K).map(|c| c.clone_span(s)).unwrap_or_else(|| s.clone())
+    }
+    fn try_close(&self, s: Id) -> bool {
+        zslot(K).map(|c| c.try_close(s)).unwrap_or(true)
+    }
+    fn current_span(&self) -> Current {
+        Current::unknown()
+    }
+}
+
+/// Put `a` into slot `k` and make a Dispatch for the slot's zero-sized static collector.
+pub fn static_dispatch(k: usize, a: std::sync::Arc<FilterCollector>) -> tracing_core::Dispatch {
+    *ZSLOT[k].lock().unwrap_or_else(|e| e.into_inner()) = Some(a);
+    match k {
+        0 => tracing_core::Dispatch::from_static(&Z0),
+        1 => tracing_core::Dispatch::from_static(&Z1),
+        _ => tracing_core::Dispatch::from_static(&Z2),
+    }
+}
+pub fn static_clear() {
+    for s in ZSLOT.iter() {
+        *s.lock().unwrap_or_else(|e| e.into_inner()) = None;
+    }
+}
